@@ -5,7 +5,7 @@ Export ListNotations.
 Notation length := List.length.
 
 Inductive error :=
-| EStruct | EAssert | EKey | EIndex | ENotImpl | EUnicode | ERuntime | EOS | EEmpty | EFuel | EOther.
+| EStruct | EAssert | EKey | EIndex | ENotImpl | EUnicode | ERuntime | EOS | EEmpty | EFuel | EOther | EValue | EType.
 
 Inductive result (A : Type) := Ok (a : A) | Err (e : error).
 Arguments Ok {A} a.
